@@ -2,8 +2,8 @@
 From Coq Require Import String.
 From Coq Require Import List NArith ZArith.
 From TarsV Require Import Base.Hex Idl.Lexer Idl.LexerProofs Idl.Parser Idl.ParserProofs Idl.Corr.
-From TarsV Require Import Idl.Print.
-From TarsV Require Idl.Schema Idl.SchemaProofs Idl.PrintProofs Codec.GenCodec Codec.Corr.
+From TarsV Require Import Idl.Print Idl.Render.
+From TarsV Require Idl.Schema Idl.SchemaProofs Idl.PrintProofs Idl.RenderProofs Idl.Accepts Codec.GenCodec Codec.Corr.
 Import ListNotations.
 Open Scope N_scope.
 
@@ -63,6 +63,29 @@ Theorem C16_accepts_grammar_instance :
   = Ok (print_prog (bs "M") PrintProofs.example_prog).
 Proof. exact PrintProofs.parse_print_instance_text. Qed.
 
+(* the lexer maps every rendering of a token sequence back to it: any spelling of a word / number that readIdent /
+   readNumber collect and strconv accepts, strings, punctuation, "#include"; between tokens any blanks, line breaks,
+   "//" comments and "/* */" comments (without '*' inside); no gap needed where a token delimits itself or the next
+   one starts with a byte that ends the scan *)
+Theorem C16_lexer_render : forall lead ps, forallb wf_gap_item lead = true -> wf_pieces ps ->
+  tokens_of (render lead ps) = Ok (map p_tok ps).
+Proof. exact RenderProofs.render_tokens. Qed.
+(* full strength: every rendering of every well-formed program is accepted with the denoted AST *)
+Theorem C16_accepts_rendered : forall name ds lead ps,
+  wf_decls (empty_module name) ds = true -> map p_tok ps = print_prog name ds ->
+  forallb wf_gap_item lead = true -> wf_pieces ps ->
+  parse_bytes (render lead ps) = match analyze (module_of name ds) with Ok m' => OOk m' | _ => OErr end.
+Proof. exact Accepts.accepts_rendered. Qed.
+Theorem C16_accepts_rendered_instance :
+  render [GLine (bs "file")] Accepts.ex_pieces =
+    bs "//file" ++ [10] ++ bs "module /* c */" ++ [9] ++ bs "m{// x // y" ++ [10] ++ bs "struct" ++ [13; 10] ++ bs "S{0 require/**/int" ++ [12] ++ bs "a=-0x1f;};" ++ [10] ++ bs "};" /\
+  wf_decls (empty_module (bs "m")) Accepts.ex_decls = true /\ map p_tok Accepts.ex_pieces = print_prog (bs "m") Accepts.ex_decls /\
+  forallb wf_gap_item [GLine (bs "file")] = true /\ wf_pieces Accepts.ex_pieces.
+Proof. exact Accepts.accepts_rendered_instance. Qed.
+
+Print Assumptions C16_lexer_render.
+Print Assumptions C16_accepts_rendered.
+Print Assumptions C16_accepts_rendered_instance.
 Print Assumptions C16_accepts_grammar_tokens.
 Print Assumptions C16_accepts_grammar.
 Print Assumptions C16_accepts_grammar_instance.
